@@ -169,6 +169,12 @@ func (g *Gen) Genesis() *GenesisCfg {
 			}
 		}
 	}
+	if r.Chance(p.TinyStakes) {
+		for i := range cfg.GenDelegations {
+			cfg.GenDelegations[i].Amount = r.Range(1, 5) * 1_000_000
+		}
+		cfg.MinTrb, cfg.MinStakeAmount = 1_000_000, 1_000_000
+	}
 	// a group of accounts with identical single delegations: equal reporting powers, exact ties
 	if r.Chance(0.6) && na >= 6 {
 		amt := Pick(r, []int64{1_000_000, 5_000_000, 123_000_000})
@@ -193,9 +199,13 @@ func (g *Gen) Genesis() *GenesisCfg {
 	}
 	cfg.MaxValidators = Pick(r, []uint32{100, 100, 100, uint32(nv), uint32(nv)}) // never below the genesis validator count (a bonded validator outside the active set is not a reachable state)
 	cfg.UnbondingSec = Pick(r, []int64{21 * 86400, 21 * 86400, 3 * 86400, 3600})
+	tiny := cfg.MinTrb == 1_000_000 && cfg.MinStakeAmount == 1_000_000
 	cfg.MinTrb = Pick(r, []int64{1_000_000, 1_000_000, 2_000_000, 10_000_000})
 	cfg.MaxSelectors = Pick(r, []uint64{100, 100, 5, 2, 1})
 	cfg.MinStakeAmount = Pick(r, []int64{1_000_000, 1_000_000, 5_000_000})
+	if tiny {
+		cfg.MinTrb, cfg.MinStakeAmount = 1_000_000, 1_000_000
+	}
 	cfg.MaxReportWindow = Pick(r, []uint64{100_000, 100_000, 2000})
 	cfg.SpotWindow = uint64(Pick(r, []int64{1, 2, 2, 2, 3, 5, 10, 20}))
 	pairs := [][2]string{{"eth", "usd"}, {"btc", "usd"}, {"trb", "usd"}, {"sol", "usd"}, {"atom", "usd"}}
